@@ -164,7 +164,7 @@ class HeapMixin:
         return v
 
     def write_field(self, st, ref, decl: str, attr: str, ftype: Type, val: V):
-        val = coerce(val, ftype)
+        val = self.coerce_to(st, val, ftype)   # an untyped [] gets its element type (and empty content) here
         self.heap_write(st, f"{decl}.{attr}", sort_of(ftype), ref, box(val))
 
     def typing_facts(self, st, v: V):
